@@ -803,7 +803,23 @@ where
         let mut combined_check_poly = P::zero();
         let mut combined_final_key = G::Group::zero();
 
+        // The number of rounds is fixed by the key, as in `check`: the final key below is
+        // committed with `vk.comm_key`, which silently drops the upper coefficients of a
+        // check polynomial that has more rounds than the key has room for.
+        let log_d = ark_std::log2(vk.supported_degree() + 1) as usize;
+
         for ((_point_label, (point, labels)), p) in query_to_labels_map.into_iter().zip(proof) {
+            if p.l_vec.len() != p.r_vec.len() || p.l_vec.len() != log_d {
+                return Err(Error::IncorrectInputLength(
+                    format!(
+                        "Expected proof vectors to be {:}. Instead, l_vec size is {:} and r_vec size is {:}",
+                        log_d,
+                        p.l_vec.len(),
+                        p.r_vec.len()
+                    )
+                ));
+            }
+
             let lc_time =
                 start_timer!(|| format!("Randomly combining {} commitments", labels.len()));
             let mut comms: Vec<&'_ LabeledCommitment<_>> = Vec::new();
